@@ -32,6 +32,7 @@ structure Construct where
   body : List TPat
   notExists : List TPat := []      -- FILTER NOT EXISTS { … } at the end of the group; [] = absent
   usesThis : Bool := true          -- the text mentions `$this` (the code pre-binds it only then)
+  binds : List (String × Term × List PTerm) := []   -- `BIND (fn(args…) AS ?var)` after the BGP, fn a SHACL function
   deriving Repr, Inhabited
 
 abbrev Binding := List (String × Term)
@@ -62,57 +63,26 @@ def instTriple (b : Binding) (pat : TPat) : Option Triple :=
   | some s, some p, some o => some ⟨s, p, o⟩
   | _, _, _ => none
 
+/-- `BIND (fn(args) AS ?v)`: an unbound argument or a call without result leaves `?v` unbound (the solution stays).
+    A call the harness has no table entry for binds a sentinel term, which then shows up in the comparison. -/
+def applyBinds (call : Term → List (Option Term) → Option (Option Term)) : List (String × Term × List PTerm) → Binding → Binding
+  | [], b => b
+  | (v, fn, args) :: rest, b =>
+    let b' : Binding :=
+      match mapE (fun a => match instTerm b a with | some t => Except.ok (some t) | none => Except.error ()) args with
+      | .error _ => b
+      | .ok vals =>
+        match call fn vals with
+        | none => (v, .iri "model:function-table-miss") :: b
+        | some none => b
+        | some (some r) => if (Binding.get b v).isSome then b else (v, r) :: b
+    applyBinds call rest b'
+
 /-- the graph a CONSTRUCT query returns (template instances with an unbound variable are dropped) -/
-def evalConstruct (g : Graph) (c : Construct) (init : Binding) : List Triple :=
-  let sols := (matchBGP g c.body init).filter fun b => c.notExists = [] ∨ matchBGP g c.notExists b = []
+def evalConstruct (call : Term → List (Option Term) → Option (Option Term)) (g : Graph) (c : Construct) (init : Binding) : List Triple :=
+  let sols := ((matchBGP g c.body init).map (applyBinds call c.binds)).filter fun b =>
+    c.notExists = [] ∨ matchBGP g c.notExists b = []
   sols.flatMap fun b => c.head.filterMap (instTriple b)
-
-/-! ### node expressions (`nodes_from_node_expression`) -/
-
-def shThis := sh "this"
-def shUnion := sh "union"
-def shIntersection := sh "intersection"
-def shFilterShape := sh "filterShape"
-def shNodes := sh "nodes"
-
-/-- `fuel` covers the nesting the code allows (`recurse_depth > 8` returns the empty list for
-    union/intersection, the only nesting node expressions of this model) -/
-def evalExpr (sg dg : Graph) (focus : Term) : Nat → Nat → Term → Except Failure (List Term)
-  | 0, _, _ => .error (.raw "model:expr-fuel")
-  | fuel+1, depth, e =>
-    if e = shThis then .ok [focus] else
-    match e with
-    | .iri _ => .ok [e]
-    | .lit _ => .ok [e]
-    | .bnode _ =>
-      let unions := dedup (sg.objects e shUnion)
-      let inters := dedup (sg.objects e shIntersection)
-      if unions ≠ [] ∧ inters ≠ [] then .error (.runtime "") else
-      if depth > Caps.exprDepth ∧ (unions ≠ [] ∨ inters ≠ []) then .ok [] else
-      match unions with
-      | u :: _ =>
-        (match rdfListItems sg u with
-          | none => .error (.raw "ValueError")
-          | some parts =>
-            (mapE (fun p => evalExpr sg dg focus fuel (depth + 1) p) parts).map fun ls => dedup ls.flatten)
-      | [] =>
-      match inters with
-      | i :: _ =>
-        -- the list of an intersection is read from the *data* graph by the code
-        (match rdfListItems dg i with
-          | none => .error (.raw "ValueError")
-          | some parts =>
-            (mapE (fun p => evalExpr sg dg focus fuel (depth + 1) p) parts).map fun ls =>
-              match ls with
-              | [] => []
-              | l :: rest => dedup (rest.foldl (fun acc x => acc.filter (· ∈ x)) l))
-      | [] =>
-      let paths := dedup (sg.objects e shPath)
-      if paths ≠ [] then
-        (mapE (fun pn => match Path.eval Caps.pathDepth (decodePath sg pathDecodeFuel pn) false 0 dg focus with
-            | .ok vs => .ok vs
-            | .error err => .error (Failure.ofPathErr err)) paths).map fun ls => dedup ls.flatten
-      else .error (.raw "model:expression-kind-not-modelled")
 
 /-! ### rules -/
 
@@ -138,7 +108,6 @@ def shPredicate := sh "predicate"
 def shObject := sh "object"
 def shConstruct := sh "construct"
 def shCondition := sh "condition"
-def shOrder := sh "order"
 
 /-- `Decimal(order_node.value)` of a rule / `Shape.order` (doubles are outside the modelled inputs) -/
 def orderKey (objs : List Term) (err : Failure) : Except Failure Rat :=
@@ -153,13 +122,6 @@ def orderKey (objs : List Term) (err : Failure) : Except Failure Rat :=
       | _ => .error (.raw "order-value"))
   | [_] => .error err
   | _ => .error err
-
-/-- python's `sorted(xs, key=…)`: a stable sort by ascending key (insertion sort, structurally recursive) -/
-def insertBy {α} (key : α → Rat) (x : α) : List α → List α
-  | [] => [x]
-  | y :: ys => if key x ≤ key y then x :: y :: ys else y :: insertBy key x ys
-
-def sortBy {α} (key : α → Rat) (l : List α) : List α := l.foldr (insertBy key) []
 
 /-- the condition shapes of a rule (`get_conditions`): a value of sh:condition is a shape or a list of shapes -/
 def ruleConditions (sg : Graph) (shapes : List Shape) (r : Term) : Except Failure (List Shape) :=
@@ -229,24 +191,31 @@ structure RCtx where
   o : Opts                      -- the executor (advanced mode, focus_nodes, …)
   onFocus : Option (List Term)  -- `focus_nodes=` argument of `apply` (focus_nodes together with use_shapes)
   iterate : Bool
+  fns : List FnDecl := []       -- the registered SPARQL functions and the opaque engine's answers for them
+  adv : AdvTables := {}
+  tts : List Term := []         -- the registered SPARQL target types
 
-/-- the focus list of `apply`: explicit nodes, or the shape's targets, then the executor's focus_nodes filter.
-    `none` ⇔ the filter leaves nothing (`return 0`) -/
-def ruleFocus (c : RCtx) (r : Rule) (g : Graph) : Option (List Term) :=
-  let focusList := match c.onFocus with
-    | some fs => fs
-    | none => focusNodes c.sg g r.shape.node
-  match c.o.focusNodes with
-  | some fns =>
-    if fns ≠ [] then
-      let filtered := focusList.filter fun f => f.isIri ∧ f ∈ fns
-      if filtered = [] then none else some filtered
-    else some focusList
-  | none => some focusList
+/-- the focus list of `apply`: explicit nodes, or the shape's targets (the shapes are in advanced mode: its custom
+    targets included), then the executor's focus_nodes filter.  `.ok none` ⇔ the filter leaves nothing (`return 0`).
+    The target-solution table is the one of the input graph (rules of the modelled cases do not touch what target
+    queries read). -/
+def ruleFocus (c : RCtx) (r : Rule) (g : Graph) : Except Failure (Option (List Term)) :=
+  match (match c.onFocus with
+    | some fs => Except.ok fs
+    | none => (advancedFocus c.sg c.tts c.adv r.shape.node).map fun extra => focusNodes c.sg g r.shape.node ++ extra) with
+  | .error e => .error e
+  | .ok focusList =>
+    match c.o.focusNodes with
+    | some fns =>
+      if fns ≠ [] then
+        let filtered := focusList.filter fun f => f.isIri ∧ f ∈ fns
+        if filtered = [] then .ok none else .ok (some filtered)
+      else .ok (some focusList)
+    | none => .ok (some focusList)
 
 /-- `cond_shape.validate(executor, data_graph, focus=f, _evaluation_path=[])[0]` -/
 def condHolds (c : RCtx) (g : Graph) (cond : Shape) (f : Term) : Except Failure Bool :=
-  let ctx : Ctx := ⟨⟨c.sg, g, c.shapes, c.rx, fun _ _ => none, fun _ => none, findComponents c.sg, fun _ _ _ _ => none⟩, c.o⟩
+  let ctx : Ctx := ⟨⟨c.sg, g, c.shapes, c.rx, fun _ _ => none, fun _ => none, findComponents c.sg, fun _ _ _ _ => none, c.fns, [], c.adv⟩, c.o⟩
   match validateShape ctx (c.o.maxDepth + 1) cond (some [f]) (some []) with
   | .error e => .error e
   | .ok (conf, _) => .ok conf
@@ -258,14 +227,11 @@ def applicable (c : RCtx) (r : Rule) (g : Graph) (foci : List Term) : Except Fai
 
 /-- what a triple rule produces for one focus node on `g` -/
 def tripleOutput (c : RCtx) (g : Graph) (s p o a : Term) : Except Failure (List Triple) :=
-  match evalExpr c.sg g a 12 0 s, evalExpr c.sg g a 12 0 p, evalExpr c.sg g a 12 0 o with
+  match evalExpr c.sg g c.fns c.adv a 24 0 s, evalExpr c.sg g c.fns c.adv a 24 0 p, evalExpr c.sg g c.fns c.adv a 24 0 o with
   | .ok ss, .ok ps, .ok os => .ok (ss.flatMap fun x => ps.flatMap fun y => os.map fun z => ⟨x, y, z⟩)
   | .error e, _, _ => .error e
   | _, .error e, _ => .error e
   | _, _, .error e => .error e
-
-def sparqlOutput (g : Graph) (cs : List Construct) (a : Term) : List Triple :=
-  cs.flatMap fun c => evalConstruct g c (if c.usesThis then [("this", a)] else [])
 
 /-- one round of a rule: outputs of all applicable nodes on the same graph; `(to_add, added)` -/
 def roundOutputs (c : RCtx) (r : Rule) (g : Graph) (nodes : List Term) : Except Failure (List Triple × Nat) :=
@@ -275,7 +241,7 @@ def roundOutputs (c : RCtx) (r : Rule) (g : Graph) (nodes : List Term) : Except 
       (outs.flatten, (outs.filter fun ts => ts.any (· ∉ g)).length)
   | .sparql cs =>
     -- only result graphs with at least one new triple are merged
-    let outs := nodes.flatMap fun a => cs.map fun k => evalConstruct g k (if k.usesThis then [("this", a)] else [])
+    let outs := nodes.flatMap fun a => cs.map fun k => evalConstruct (callByPosition c.fns c.adv) g k (if k.usesThis then [("this", a)] else [])
     let fresh := outs.filter fun ts => ts.any (· ∉ g)
     .ok (fresh.flatten, fresh.length)
 
@@ -299,8 +265,9 @@ def ruleLoop (c : RCtx) (r : Rule) (foci : List Term) (iter : Bool) : Nat → Gr
 /-- `rule.apply(data_graph, focus_nodes=…)` → (graph, n_modified) -/
 def applyRule (c : RCtx) (r : Rule) (g : Graph) : Except Failure (Graph × Nat) :=
   match ruleFocus c r g with
-  | none => .ok (g, 0)
-  | some foci =>
+  | .error e => .error e
+  | .ok none => .ok (g, 0)
+  | .ok (some foci) =>
     match r.kind with
     | .triple _ _ _ => ruleLoop c r foci c.iterate Caps.tripleRuleIterateLimit g 0
     | .sparql _ => ruleLoop c r foci false Caps.sparqlRuleIterateLimit g 0
@@ -353,15 +320,19 @@ def rulesShapes (sg : Graph) (useShapes : List Term) : Except Failure (List Shap
 
 /-- `RuleExpandRunner.run` / the advanced part of `Validator.run` on prepared graphs -/
 def runRules (o : Opts) (iterate : Bool) (sg dg : Graph) (rx : Regex) (focus useShapes : List Term)
-    (constructs : Term → List Construct) : Except Failure Graph :=
+    (constructs : Term → List Construct) (adv : AdvTables := {}) : Except Failure Graph :=
   match rulesShapes sg useShapes with
   | .error e => .error e
   | .ok (shapes, selected) =>
     let manual := selected.isSome
     let o' : Opts := { o with focusNodes := if focus = [] ∨ manual then none else some focus }
     let onFocus := if manual ∧ focus ≠ [] then some focus else none
+    match gatherTargetTypes sg, gatherFunctions sg with
+    | .error e, _ => .error e
+    | _, .error e => .error e
+    | .ok tts, .ok fns =>
     match gatherRules sg shapes constructs (selected.map fun l => l.map (·.node)) with
     | .error e => .error e
-    | .ok groups => applyRules ⟨sg, shapes, rx, o', onFocus, iterate⟩ groups dg
+    | .ok groups => applyRules ⟨sg, shapes, rx, o', onFocus, iterate, fns, adv, tts⟩ groups dg
 
 end Pyshacl
